@@ -136,6 +136,18 @@ pub fn alternative_accessor_findings(root: &oq3_syntax::SyntaxNode) -> Vec<(Stri
                 out.push(("BinExpr::op_details".into(), format!("{:?}", d), format!("{:?}", w)));
             }
         }
+        if let Some(w) = ast::WhileStmt::cast(n.clone()) {
+            // children: the condition, then the body; the inherent accessor loop_body() is
+            // typed Option<Expr>, so it can be judged where the body is a block
+            if let Some(body) = w.syntax().children().nth(1) {
+                if ast::Expr::can_cast(body.kind()) {
+                    let lb = w.loop_body().map(|e| e.syntax().text().to_string());
+                    if lb.as_deref() != Some(body.text().to_string().as_str()) {
+                        out.push(("WhileStmt::loop_body".into(), format!("{:?}", lb), format!("{:?}", body.text().to_string())));
+                    }
+                }
+            }
+        }
         if let Some(i) = ast::IfStmt::cast(n.clone()) {
             let t1 = i.then_branch_block().map(|b| b.syntax().text().to_string()).or(i.then_branch_stmt().map(|s| s.syntax().text().to_string()));
             let node1 = i.syntax().children().nth(1).map(|c| c.text().to_string());
